@@ -30,7 +30,9 @@ template <class T> class matrix {
     std::size_t m_, n_; std::vector<T> d_;
    public:
     matrix() : m_(0), n_(0) {}
-    matrix(std::size_t m, std::size_t n) : m_(m), n_(n), d_(m * n) {}
+    // (uBLAS does not initialise the storage of a sized matrix: the stand-in fills it with NaN so that an entry that is read
+    // before it is assigned shows)
+    matrix(std::size_t m, std::size_t n) : m_(m), n_(n), d_(m * n, std::nan("")) {}
     matrix &operator=(const zero_matrix<T> &z) { m_ = z.m_; n_ = z.n_; d_.assign(m_ * n_, T()); return *this; }
     std::size_t size1() const { return m_; }
     std::size_t size2() const { return n_; }
